@@ -161,7 +161,10 @@ def run(repo: Repo, rep: Report, tier: str) -> None:
                     for k, v in run.atoms.items():
                         m1 = re.fullmatch(r"type\(value\) is (\w+)", k)
                         if m1:
-                            if (m1.group(1) == exact) != v:
+                            _guard = m1.group(1)
+                            if _guard.startswith("_h"):  # the guard names the type through get_type_name_identifier: resolve the hole
+                                _guard = canon_expr(_guard)
+                            if (_guard == exact) != v:
                                 return False
                             continue
                         m2 = re.fullmatch(r"raises\[[^\]]*\]\(return (.+)\)", k)
@@ -435,3 +438,19 @@ def run(repo, rep, tier):  # noqa: F811 -- round-7 remedies / borrowings
 _ADD_R7A = ' R11.15: in the Literal unpacker a condition that splices a converter expression (a Registry.get result, which raises on foreign input) sits inside an emitted `try:`; comparisons over the raw value need none. Borrowed: R05.15 (no site forces could_be_none=False for a union member / element).'
 EXPLANATION += _ADD_R7A
 LEVEL_TEXT += _ADD_R7A
+
+
+_run_before_r7n = run
+
+
+def run(repo, rep, tier):  # noqa: F811 -- round-7 remedies / borrowings
+    _run_before_r7n(repo, rep, tier)
+    if getattr(rep, "borrowed", False):
+        return
+    from ..core import round7 as _r7n
+    _r7n.type_refs_not_by_bare_name(repo, rep, "R17.15")
+
+
+_ADD_R7N = ' Borrowed: R17.15 (the exact-type guard of a union member names the type through the type-name machinery, not by its bare __name__).'
+EXPLANATION += _ADD_R7N
+LEVEL_TEXT += _ADD_R7N
